@@ -14,7 +14,7 @@ eba8482); `bin/check C03` ties the model to the code on every run. Groups: the w
 receiver per group (`edge.GroupedConsumer`), so the per-group statement below is the whole statement; that
 the real node routes interleaved groups to separate receivers is checked by the task cases of the harness.
 -/
-import Kap.Proofs.C03Time
+import Kap.Proofs.C03Buf
 import Kap.Proofs.C03Count
 namespace Kap.Props.C03
 open Kap.C03
@@ -104,6 +104,22 @@ stale-slot hypothesis of `purge_refines_filter` is maintained from one purge to 
 theorem excluded_stays_excluded (o o' : Int) (inclusive : Bool) (t : Int) (h : o ≤ o')
     (hx : includes o inclusive t = false) : includes o' inclusive t = false :=
   includes_antitone o o' inclusive t h hx
+
+/-- **The buffer over ANY history of inserts and purges — no hypothesis on states, only on the input**
+(`wfFrom`: inserted times never decrease, purge bounds never decrease, an inserted point is not already
+expired for the last bound — exactly what `windowByTime` feeds it): `points()` is the filter of everything
+inserted so far by the last purge bound, in arrival order, and no panic site is reached. The stale-slot
+invariant and the sortedness that `purge_refines_filter` assumes are established and maintained inside the
+proof for every reachable state. -/
+theorem buffer_history_exact (inclusive : Bool) (ops : List BOp) (hwf : wfFrom inclusive none none ops = true) :
+    (runBuf inclusive {} ops).points
+      = (insertedOf ops).filter (fun q => incBy inclusive (boundOf none ops) q.t) ∧
+    (runBuf inclusive {} ops).panicked = false := by
+  have h := runBuf_inv inclusive ops {} [] none none ⟨[], [], ring_init, rfl, by simp⟩
+    (by simp [SortedT]) (by simp) hwf
+  obtain ⟨live, stale, hr, hl, _⟩ := h
+  rw [List.nil_append] at hl
+  exact ⟨by rw [ring_points hr, hl], ring_panicked hr⟩
 
 /-! ### Time windows: content, end time and schedule — for every configuration and every history -/
 
@@ -231,6 +247,92 @@ theorem emit_schedule (c : TCfg) (m0 : Msg) (ms : List Msg) (hp : 0 < c.period) 
   obtain ⟨live, stale, hr, hl, _⟩ := hring
   rw [ring_points hr, hl, hhist]
 
+/-- **Every reachable window state satisfies the ring invariant with all side conditions** — for every
+configuration and every non-decreasing history: the buffer is a `Ring`, its live points are sorted by time and
+are exactly the received points the last purge bound `wm` includes, every stale slot is excluded by `wm`, and
+`wm` is at least one period behind the last message (so every later purge bound is ≥ `wm`). -/
+theorem reachable_ring (c : TCfg) (m0 : Msg) (ms : List Msg) (hp : 0 < c.period) (he : 0 ≤ c.every)
+    (hmono : nondecreasing ((m0 :: ms).map Msg.t) = true) :
+    let w := TW.after (TW.init c m0.t) (m0 :: ms)
+    ∃ live stale wm, Ring w.buf live stale ∧ SortedT live ∧ w.buf.points = live ∧
+      live = (received (m0 :: ms)).filter (fun q => includes wm (c.every != 0) q.t) ∧
+      (∀ q ∈ stale, includes wm (c.every != 0) q.t = false) ∧
+      wm + c.period ≤ lastT m0.t (TW.traceFrom (TW.init c m0.t) (m0 :: ms)) := by
+  obtain ⟨_, _, ⟨wm, ⟨live, stale, hr, hl, hs⟩, hwm⟩, _, hsorted, _⟩ := tinv_after c m0 ms hp he hmono
+  rw [histOf_traceFrom] at hl hsorted
+  exact ⟨live, stale, wm, hr, by rw [hl]; exact sortedT_filter _ hsorted, ring_points hr, hl, hs, hwm⟩
+
+/-- **Every purge the window ever performs meets the hypotheses of `purge_refines_filter`**: after any
+non-decreasing history, for any next message `m` (not earlier than the last one) that triggers an emission, the
+buffer handed to `purge` (for every = 0 the point is inserted first) is a ring with sorted live points whose
+stale slots are all excluded by the bound the code computes (`nextEmit - period`, every = 0: `m.t - period`). -/
+theorem every_purge_meets_its_preconditions (c : TCfg) (m0 : Msg) (ms : List Msg) (m : Msg)
+    (hp : 0 < c.period) (he : 0 ≤ c.every)
+    (hmono : nondecreasing ((m0 :: ms ++ [m]).map Msg.t) = true) :
+    let w := TW.after (TW.init c m0.t) (m0 :: ms)
+    let b := if c.every = 0 then (match m with | .point p => w.buf.insert p | .barrier _ => w.buf) else w.buf
+    let oldest := if c.every = 0 then m.t - c.period else w.nextEmit - c.period
+    ¬ m.t < w.nextEmit →
+    ∃ live stale, Ring b live stale ∧ SortedT live ∧
+      ∀ q ∈ stale, includes oldest (c.every != 0) q.t = false := by
+  have hmono1 : nondecreasing ((m0 :: ms).map Msg.t) = true ∧
+      lastT m0.t (TW.traceFrom (TW.init c m0.t) (m0 :: ms)) ≤ m.t := by
+    have hl : ∀ (w : TW) (l : List Msg), (TW.runFrom Buf.insert w l).length = l.length := by
+      intro w l; induction l generalizing w with
+      | nil => rfl
+      | cons a l ih => simp [TW.runFrom, ih]
+    have hlast : lastT m0.t (TW.traceFrom (TW.init c m0.t) (m0 :: ms)) = ((m0 :: ms).getLast?.map Msg.t).getD m0.t := by
+      unfold lastT TW.traceFrom
+      have : ((m0 :: ms).zip (TW.runFrom Buf.insert (TW.init c m0.t) (m0 :: ms))).getLast?.map (·.1)
+          = (m0 :: ms).getLast? := by
+        rw [← List.getLast?_map, List.map_fst_zip (by rw [hl]; exact Nat.le_refl _)]
+      rw [← this]; simp [Option.map_map, Function.comp_def]
+    rw [hlast]
+    have key : ∀ (l : List Msg) (a : Msg), nondecreasing ((a :: l ++ [m]).map Msg.t) = true →
+        nondecreasing ((a :: l).map Msg.t) = true ∧ (((a :: l).getLast?.map Msg.t).getD a.t) ≤ m.t := by
+      intro l
+      induction l with
+      | nil => intro a h; simp [nondecreasing] at h ⊢; exact h
+      | cons x l ih =>
+        intro a h
+        simp only [List.cons_append, List.map_cons, nondecreasing, Bool.and_eq_true, decide_eq_true_eq] at h
+        have := ih x (by simpa [nondecreasing] using h.2)
+        refine ⟨by simp only [List.map_cons, nondecreasing, Bool.and_eq_true, decide_eq_true_eq]; exact ⟨h.1, by simpa using this.1⟩, ?_⟩
+        have h2 := this.2
+        simp only [List.getLast?_cons_cons] at h2 ⊢
+        cases hx : (x :: l).getLast? with
+        | none => simp at hx
+        | some y => rw [hx] at h2; simpa using h2
+    exact key ms m0 hmono
+  obtain ⟨hm1, hm2⟩ := hmono1
+  obtain ⟨hcfg, hne, ⟨wm, hring, hwm⟩, hle, hsorted, hahead⟩ := tinv_after c m0 ms hp he hm1
+  intro w b oldest htrig
+  by_cases h0 : c.every = 0
+  · have hincl : (c.every != 0) = false := by simp [h0]
+    rw [hincl] at hring ⊢
+    have hb : RingSt false (histOf (TW.traceFrom (TW.init c m0.t) (m0 :: ms)) ++ msgPts m) wm b := by
+      cases m with
+      | point p =>
+        have hm2' : lastT m0.t (TW.traceFrom (TW.init c m0.t) (m0 :: ms)) ≤ p.t := hm2
+        have hinp : includes wm false p.t = true := by unfold includes; simp; omega
+        simpa [b, h0, msgPts] using ringst_insert p hring hinp
+      | barrier t => simpa [b, h0, msgPts] using hring
+    have hs' : SortedT (histOf (TW.traceFrom (TW.init c m0.t) (m0 :: ms)) ++ msgPts m) := by
+      have := (hist_step (t0 := m0.t) m none hle hsorted hm2).2
+      rwa [histOf_snoc] at this
+    obtain ⟨⟨live, stale, hr, _, hs⟩, _⟩ := ringst_purge (incl := false) oldest hb hs' (by simp [oldest, h0]; omega)
+    obtain ⟨live0, stale0, hr0, hl0, hs0⟩ := hb
+    refine ⟨live0, stale0, hr0, by rw [hl0]; exact sortedT_filter _ hs', ?_⟩
+    intro q hq
+    exact includes_antitone wm oldest false q.t (by simp [oldest, h0]; omega) (hs0 q hq)
+  · have hincl : (c.every != 0) = true := by simp [h0]
+    rw [hincl] at hring ⊢
+    have hah : lastT m0.t (TW.traceFrom (TW.init c m0.t) (m0 :: ms)) < w.nextEmit := hahead h0
+    obtain ⟨live0, stale0, hr0, hl0, hs0⟩ := hring
+    refine ⟨live0, stale0, by simpa [b, h0] using hr0, by rw [hl0]; exact sortedT_filter _ hsorted, ?_⟩
+    intro q hq
+    exact includes_antitone wm oldest true q.t (by simp [oldest, h0]; omega) (hs0 q hq)
+
 /-- The four cases of the first due time, as `newWindowByTime` computes them. -/
 theorem first_due_cases (c : TCfg) (t0 : Int) (he : 0 ≤ c.every) :
     (TW.init c t0).nextEmit = firstDue c t0 := init_nextEmit c t0 he
@@ -311,6 +413,12 @@ example :
     0 < c.period ∧ 0 ≤ c.every ∧ nondecreasing (ms.map Msg.t) = true ∧
     runTime c ms = [none, none, some ⟨10, []⟩, none, some ⟨20, [⟨19, 4⟩]⟩] := by
   decide
+
+/-- a well-formed buffer history that drains the ring at the end of the slice, refills it to capacity and
+purges partially (the formerly defective pattern) -/
+example :
+    let ops : List BOp := [.ins ⟨0, 1⟩, .ins ⟨1, 2⟩, .purge 8, .ins ⟨10, 3⟩, .ins ⟨19, 4⟩, .purge 18, .ins ⟨20, 5⟩]
+    wfFrom true none none ops = true ∧ (runBuf true {} ops).points = [⟨19, 4⟩, ⟨20, 5⟩] := by decide
 
 example : runTime ⟨10, 0, false, false⟩ [.point ⟨0, 1⟩, .point ⟨10, 2⟩, .barrier 20]
     = [some ⟨0, [⟨0, 1⟩]⟩, some ⟨10, [⟨10, 2⟩]⟩, some ⟨20, []⟩] := by decide
